@@ -18,7 +18,7 @@ OBLIGATIONS = ['PGA.Thermo.' + t for t in [
     'C06_empty_intersection_rejected', 'C06_table_outside_errors', 'C06_nonpositive_T_rejected',
     'C06_table_setRange_outside_errors', 'C06_table_setRange_inside_value', 'C06_table_setRange_reversed',
     'C06_correlation_outside_errors', 'C06_correlation_outside_signalled', 'C06_estimate_outside_signalled',
-    'C06_table_inside_value', 'C06_estimate_inside_value', 'C06_no_internal_error', 'C06_tab_shipped_ranges', 'C06_tab_shipped_ranges_spec',
+    'C06_table_inside_value', 'C06_estimate_inside_value', 'C06_no_internal_error', 'C06_array_checked_elementwise', 'C06_tab_shipped_ranges', 'C06_tab_shipped_ranges_spec',
     'F27_unsignalled_before_repair']]
 RULE = ('cases = (correlation or estimate, temperature, property) triples. Correlations: ThermochemRawData / Incomplete / Group, with '
         'and without Cp data (tables of 1..8 points), with / without reference values, range present / absent / degenerate, T_ref '
@@ -137,6 +137,35 @@ def check_single(ctx, spec, batch, key, temps=None, want=L.WHICH, oracle=True):
                       {'mk': 'ok', 'range': L.impl_range(obj), 'outs': outs}, dict(inp0, T=T), spec))
     if oracle and has_cp and lo is not None:
         array_outside(ctx, obj, spec, lo, hi, inp0)
+    if oracle and getattr(obj, 'range', None) is not None and L.impl_range(obj) is not None:
+        array_check_tie(ctx, obj, L.impl_range(obj)[0], L.impl_range(obj)[1], inp0, batch)
+
+
+def array_check_tie(ctx, obj, lo, hi, inp0, batch):
+    """tie of `checkRangeArr` (theorem C06_array_checked_elementwise): `check_range` itself on random arrays of temperatures
+    -- inside, at the ends, one ulp outside, far outside, in any position -- against the model's whole-array decision"""
+    import numpy as np
+    rng = ctx.rng
+    inside = (lo + hi) / 2.0
+    pool = [inside, lo, hi, L.nexta(lo, False), L.nexta(hi, True), lo - 40.0, hi + 500.0, (lo + inside) / 2.0, 0.0, -5.0]
+    for _ in range(2):
+        k = rng.choice([0, 1, 2, 3, 5, 8])
+        arr = [rng.choice(pool[:3] + pool[7:8]) if rng.random() < 0.75 else rng.choice(pool) for _ in range(k)]
+        shape = rng.choice(['1d', '1d', '2d']) if k and k % 2 == 0 else '1d'
+        a = np.array(arr, dtype=float)
+        if shape == '2d':
+            a = a.reshape(2, -1)
+        try:
+            obj.check_range(a)
+            ok = True
+        except Exception as e:  # noqa
+            ok = False if type(e).__name__ == 'OutsideCorrelationError' else 'raises ' + type(e).__name__
+        ctx.count('array_check_%s_%s' % ('ok' if ok is True else 'refused', 'all_inside' if all(lo <= t <= hi for t in arr) else 'some_outside'))
+        if ok != all(lo <= t <= hi for t in arr):
+            ctx.violation('check_range on an array of temperatures does not refuse exactly the arrays with an element outside the range',
+                          dict(inp0, temperatures=arr, shape=shape), expected=all(lo <= t <= hi for t in arr), observed=ok)
+        batch.append(({'op': 'c06.check_arr', 'range': [L.J(lo), L.J(hi)], 'Ts': [L.J(t) for t in arr]},
+                      {'arr': True, 'ok': ok}, dict(inp0, temperatures=arr, shape=shape), None))
 
 
 def array_outside(ctx, obj, spec, lo, hi, inp0):
@@ -606,6 +635,10 @@ def compare(ctx, batch):
     for (req, impl, inp, spec), rep in zip(batch, replies):
         op = req['op']
         ctx.count('corr_' + op)
+        if impl.get('arr'):
+            if rep.get('ok') != impl['ok']:
+                ctx.disagree('corr:c06.check_arr', inp, impl['ok'], rep.get('ok'))
+            continue
         if impl.get('fold'):
             m = {'mk': 'ok' if rep['accepted'] else 'assertion', 'range': L.model_range(rep) if rep['accepted'] else None}
             if m['mk'] != impl['mk'] or m['range'] != impl['range']:
